@@ -46,10 +46,30 @@ def run_seq(ctx, pid, extra_args=()):
     cmd = [exe, "run", "--prop", pid, "--tier", ctx.tier, "--out", out] + list(extra_args)
     p, wall = ctx.run_engine(cmd, ctx.timeout(), "fiverif run --prop %s" % pid)
     if p.returncode != 0 or not os.path.exists(out):
+        so = stack_overflow_doc(p.stderr or "")
+        if so:
+            return so, wall
         ctx.machinery("fiverif exited with status %s:\n%s" % (p.returncode, "\n".join((p.stderr or "").splitlines()[-25:])))
     with open(out) as f:
         doc = json.load(f)
     return doc, wall
+
+
+def stack_overflow_doc(stderr):
+    """A scripted burst runs on a 256 KiB thread named after what it runs; if library code recursed
+    as deep as there are parked futures, Rust aborts the process with "thread '<name>' has overflowed
+    its stack". That is a verdict about the library (the harness and the unchanged library are
+    iterative there), reported through the same channel as a hang."""
+    import re
+    m = re.search(r"thread 'script\|(C\d\d)\|([^|]*)\|([^|]*)\|n=(\d+)' has overflowed its stack", stderr)
+    if not m:
+        return None
+    prop, label, op, n = m.group(1), m.group(2), m.group(3), m.group(4)
+    system = label.split("(")[0]
+    params = dict((kv.split("=")[0], int(kv.split("=")[1])) for kv in label[label.index("(") + 1:-1].split(",") if "=" in kv)
+    return {"engine": "E-SEQ", "runs": [], "hang": {
+        "attributed_to": prop, "config": label, "config_json": {"system": system, "params": params}, "history": [op],
+        "message": "a library call overflowed the 256 KiB stack of the script thread with %s parked futures (recursion depth proportional to the number of waiters; the process was aborted)" % n}}
 
 
 def seq_part(ctx, pid, doc):
@@ -239,7 +259,7 @@ def loom_attribution(name, props, msg):
     if "deadlock" in msg:
         return WAKE_PROPS & set(props)
     if "Causality violation" in msg or "UnsafeCell" in msg:
-        if name.endswith("_clone_exclusive"):
+        if name.endswith("_clone_exclusive") or "_debug_" in name:
             # two threads inside clone() of the same stored payload, or a clone not ordered after
             # the send: the channel is Sync for a payload that is only Send (C16), and a receiver
             # does not get a proper clone (the flavour's delivery property)
